@@ -1124,6 +1124,7 @@ impl<R: Read> Revertable for LinearPerspective<R> {
     fn checkpoint(&self) -> Checkpoint {
         Checkpoint {
             index: self.commands.len(),
+            pending: self.current_updates.len(),
         }
     }
 
@@ -1131,10 +1132,12 @@ impl<R: Read> Revertable for LinearPerspective<R> {
         // Equal command count alone does not mean clean: a rule that wrote
         // facts and then failed leaves its writes pending in
         // `facts`/`current_updates` without having added a command. But
-        // every fact write pushes onto `current_updates`, so an empty
-        // buffer at equal command count means the fact overlay is untouched
-        // since the checkpoint and there is nothing to rebuild.
-        if checkpoint.index == self.commands.len() && self.current_updates.is_empty() {
+        // every fact write pushes onto `current_updates`, so an unchanged
+        // buffer length at equal command count means the fact overlay is
+        // untouched since the checkpoint and there is nothing to rebuild.
+        if checkpoint.index == self.commands.len()
+            && checkpoint.pending == self.current_updates.len()
+        {
             return Ok(());
         }
 
@@ -1144,12 +1147,24 @@ impl<R: Read> Revertable for LinearPerspective<R> {
             );
         }
 
+        // Updates that were already pending when the checkpoint was taken
+        // are part of the state to restore. They are still at the front of
+        // `current_updates`, or, if a command was added since, at the front
+        // of the first command added after the checkpoint.
+        let pending: Vec<Update> = match self.commands.get(checkpoint.index) {
+            Some(data) => data.updates.get(..checkpoint.pending),
+            None => self.current_updates.get(..checkpoint.pending),
+        }
+        .assume("checkpoint's pending updates must still exist")?
+        .to_vec();
+
         self.commands.truncate(checkpoint.index);
         self.facts.clear();
-        self.current_updates.clear();
         for data in &self.commands {
             self.facts.apply_updates(&data.updates)?;
         }
+        self.facts.apply_updates(&pending)?;
+        self.current_updates = pending;
 
         Ok(())
     }
